@@ -33,7 +33,7 @@ func parseSummary(out string) (summaryInfo, error) {
 		return s, nil
 	}
 	if !strings.Contains(out, "Snapshot Summary") {
-		return s, fmt.Errorf("output is not a summary: %q", clip(out))
+		return s, fmt.Errorf("output is not a summary: %q", vhClip(out))
 	}
 	s.Present = true
 	lines := strings.Split(out, "\n")
@@ -142,12 +142,12 @@ func (e cleanEntry) body() string { return refEscape(e.Val.Text()) }
 func totalOrderIDs(ids []string) bool {
 	for _, id := range ids {
 		for i := 0; i < len(id); {
-			if !isDigit(id[i]) {
+			if !vhIsDigit(id[i]) {
 				i++
 				continue
 			}
 			j := i
-			for j < len(id) && isDigit(id[j]) {
+			for j < len(id) && vhIsDigit(id[j]) {
 				j++
 			}
 			if (j-i > 1 && id[i] == '0') || j-i > 18 {
@@ -209,14 +209,14 @@ func genCleanFile(t *rapid.T, cfg CfgSpec, names []string, o textOpts, col *coll
 			}
 		}
 	}
-	perm := rapid.Permutation(indices(len(es))).Draw(t, "order")
+	perm := rapid.Permutation(vhIndices(len(es))).Draw(t, "order")
 	if rapid.IntRange(0, 3).Draw(t, "keeporder") == 0 {
-		perm = indices(len(es))
+		perm = vhIndices(len(es))
 	}
 	for _, p := range perm {
 		f.Entries = append(f.Entries, es[p])
 	}
-	f.Perm2 = rapid.Permutation(indices(len(es))).Draw(t, "order2")
+	f.Perm2 = rapid.Permutation(vhIndices(len(es))).Draw(t, "order2")
 	if rapid.IntRange(0, 3).Draw(t, "slack") == 0 {
 		f.Slack = rapid.SliceOfN(rapid.IntRange(0, 3), len(es)+1, len(es)+1).Draw(t, "slacklines")
 	}
@@ -331,7 +331,7 @@ func runCleanProcess(root string, files []cleanFile, mode Mode, count int, sortO
 			}
 			if f.Ghost {
 				gs := f.Cfg
-				gs.Update = boolp(false)
+				gs.Update = vhBoolp(false)
 				ft := newFakeT("TestGhostXyz")
 				r := Call{API: "snap", Vals: []Val{strVal("never stored")}}.invoke(gs.build(root), ft)
 				ft.finish()
@@ -357,7 +357,7 @@ func runCleanProcess(root string, files []cleanFile, mode Mode, count int, sortO
 				for _, e := range es {
 					r := Call{API: "snap", Vals: []Val{e.Val}}.invoke(cfg, ft)
 					if out, err := outcomeOf(r); err != nil || out != oPassed {
-						return "", fmt.Errorf("file %d: replaying live entry %q before Clean: outcome %q err %v errors=%q", fi, e.id(), out, err, clipAll(r.Errors))
+						return "", fmt.Errorf("file %d: replaying live entry %q before Clean: outcome %q err %v errors=%q", fi, e.id(), out, err, vhClipAll(r.Errors))
 					}
 				}
 				ft.finish()
@@ -381,7 +381,7 @@ func checkC10(c c10Case) error {
 	for i, f := range c.Files {
 		paths[i] = filepath.Join(root, f.Cfg.multiPath())
 		os.MkdirAll(filepath.Dir(paths[i]), 0o755)
-		os.WriteFile(paths[i], []byte(f.render(indices(len(f.Entries)))), 0o644)
+		os.WriteFile(paths[i], []byte(f.render(vhIndices(len(f.Entries)))), 0o644)
 	}
 	ageDir(root)
 	before := snapDir(root)
@@ -429,7 +429,7 @@ func checkC10(c c10Case) error {
 		}
 		got, err := refParse(data)
 		if err != nil {
-			return fmt.Errorf("file %s after Clean is not well formed: %v; content %q", rel, err, clip(data))
+			return fmt.Errorf("file %s after Clean is not well formed: %v; content %q", rel, err, vhClip(data))
 		}
 		// survivors
 		var want []Entry
@@ -453,7 +453,7 @@ func checkC10(c c10Case) error {
 		total := totalOrderIDs(ids)
 		if sorts && total {
 			for k := 1; k < len(got); k++ {
-				if naturalCmp(string(got[k-1].ID), string(got[k].ID)) > 0 {
+				if vhNaturalCmp(string(got[k-1].ID), string(got[k].ID)) > 0 {
 					return fmt.Errorf("file %s: sort requested but %q comes before %q", rel, got[k-1].ID, got[k].ID)
 				}
 			}
@@ -468,7 +468,7 @@ func checkC10(c c10Case) error {
 		alreadySorted := true
 		all := renderedEntries(f)
 		for k := 1; k < len(all); k++ {
-			if naturalCmp(string(all[k-1].ID), string(all[k].ID)) > 0 {
+			if vhNaturalCmp(string(all[k-1].ID), string(all[k].ID)) > 0 {
 				alreadySorted = false
 			}
 		}
@@ -508,7 +508,7 @@ func checkC10(c c10Case) error {
 			ids = append(ids, e.id())
 		}
 		if after2[rel].Data != before2[rel].Data && totalOrderIDs(ids) {
-			return fmt.Errorf("file %s: a second Clean changed the content again: %q -> %q", rel, clip(before2[rel].Data), clip(after2[rel].Data))
+			return fmt.Errorf("file %s: a second Clean changed the content again: %q -> %q", rel, vhClip(before2[rel].Data), vhClip(after2[rel].Data))
 		}
 		if !after2[rel].Mtime.Equal(before2[rel].Mtime) && totalOrderIDs(ids) {
 			return fmt.Errorf("file %s: a second Clean wrote the file again", rel)
@@ -544,7 +544,7 @@ func checkC10(c c10Case) error {
 			if !totalOrderIDs(ids) || !addressed[i] {
 				continue
 			}
-			got := readFile(filepath.Join(root2, f.Cfg.multiPath()))
+			got := vhReadFile(filepath.Join(root2, f.Cfg.multiPath()))
 			same := got == results[i]
 			if len(f.Slack) > 0 {
 				// a file that was in order already is not rewritten and keeps its blank lines: the ENTRIES are what must agree
@@ -553,7 +553,7 @@ func checkC10(c c10Case) error {
 				same = err1 == nil && err2 == nil && refRender(e1) == refRender(e2)
 			}
 			if !same {
-				return fmt.Errorf("file %s: sorted result depends on the initial order:\norder 1 -> %q\norder 2 -> %q", f.Cfg.multiPath(), clip(results[i]), clip(got))
+				return fmt.Errorf("file %s: sorted result depends on the initial order:\norder 1 -> %q\norder 2 -> %q", f.Cfg.multiPath(), vhClip(results[i]), vhClip(got))
 			}
 		}
 	}
@@ -579,10 +579,10 @@ func sameMultiset(want, got []Entry) error {
 	var missing, extra []string
 	for e, n := range count {
 		if n > 0 {
-			missing = append(missing, fmt.Sprintf("[%s]=%q", e.ID, clip(string(e.Body))))
+			missing = append(missing, fmt.Sprintf("[%s]=%q", e.ID, vhClip(string(e.Body))))
 		}
 		if n < 0 {
-			extra = append(extra, fmt.Sprintf("[%s]=%q", e.ID, clip(string(e.Body))))
+			extra = append(extra, fmt.Sprintf("[%s]=%q", e.ID, vhClip(string(e.Body))))
 		}
 	}
 	sort.Strings(missing)
@@ -604,7 +604,7 @@ func classifyC10(c c10Case) ([]string, bool) {
 		var ids []string
 		for k := range all {
 			ids = append(ids, string(all[k].ID))
-			if k > 0 && naturalCmp(string(all[k-1].ID), string(all[k].ID)) > 0 {
+			if k > 0 && vhNaturalCmp(string(all[k-1].ID), string(all[k].ID)) > 0 {
 				unsorted = true
 			}
 		}
@@ -650,7 +650,7 @@ func classifyC10(c c10Case) ([]string, bool) {
 	if c.Mode.CI {
 		cls = append(cls, "ci")
 	}
-	return uniq(cls), nt
+	return vhUniq(cls), nt
 }
 
 func TestC10_CleanRewrite(t *testing.T) {
@@ -683,7 +683,7 @@ func (m manyOrdCase) c10() c10Case {
 	return c
 }
 
-func gcd(a, b int) int {
+func vhGcd(a, b int) int {
 	for b != 0 {
 		a, b = b, a%b
 	}
@@ -691,8 +691,8 @@ func gcd(a, b int) int {
 }
 
 func TestC10_ManyOrdinals(t *testing.T) {
-	nshards, _ := strconv.Atoi(getenv("VERIF_NSHARDS", "1"))
-	shard, _ := strconv.Atoi(getenv("VERIF_SHARD", "0"))
+	nshards, _ := strconv.Atoi(vhGetenv("VERIF_NSHARDS", "1"))
+	shard, _ := strconv.Atoi(vhGetenv("VERIF_SHARD", "0"))
 	ns := []int{9, 10, 11, 99, 100, 101}
 	if tierThorough() {
 		ns = append(ns, 999, 1000, 1001)
@@ -711,7 +711,7 @@ func TestC10_ManyOrdinals(t *testing.T) {
 						continue
 					}
 					step := 7
-					for gcd(step, n+stale) != 1 {
+					for vhGcd(step, n+stale) != 1 {
 						step++
 					}
 					if !yield(manyOrdCase{N: n, Stale: stale, Clean: clean, Step: step}) {
